@@ -16,6 +16,7 @@ import OdeVerif.Model.Propagator
 import OdeVerif.Model.Validate
 import OdeVerif.Model.Config
 import OdeVerif.Model.Cli
+import OdeVerif.Model.FromFunction
 
 open Lean
 
@@ -461,6 +462,23 @@ def opCli (j : Json) : Except String Json := do
       ("flags", Json.mkObj [("disable_stiffness_check", Json.bool f.disableStiffness), ("disable_analytic_solver", Json.bool f.disableAnalytic),
                             ("preserve_expressions", p), ("log_level", Json.str f.logLevel)])])
 
+/-! ### C05 from_function order search -/
+
+def opFromFunction (j : Json) : Except String Json := do
+  let nz ← j.getObjValAs? (List Bool) "nonzero"            -- nonzeroAt t for t = 0, 1, …  (missing = false)
+  let inv ← j.getObjValAs? (List (List Bool)) "invertible"  -- invertible[k][t] for order k, sample start t (missing = false)
+  let ver ← j.getObjValAs? (List Bool) "verifies"           -- verifies[k]
+  let o : FromFunction.Oracle := {
+    nonzeroAt := fun t => nz.getD t false, order1Verifies := (← getBool j "order1"),
+    invertibleAt := fun k t => (inv.getD k []).getD t false, verifies := fun k => ver.getD k false }
+  let r := match j.getObjValAs? Nat "max_order" with
+    | .ok mo => FromFunction.fromFunction o ((j.getObjValAs? Nat "max_t").toOption.getD Generated.fromFunctionMaxT) mo
+    | .error _ => FromFunction.fromFunctionDefault o
+  match r with
+  | .ok k => pure (Json.mkObj [("order", Json.num (JsonNumber.fromNat k))])
+  | .error .noNonzeroSample => pure (Json.mkObj [("error", Json.str "no-nonzero-sample")])
+  | .error .noOde => pure (Json.mkObj [("error", Json.str "no-ode")])
+
 def dispatch (op : String) (j : Json) : Json :=
   match op with
   | "ping" => Json.mkObj [("pong", j)]
@@ -483,6 +501,7 @@ def dispatch (op : String) (j : Json) : Json :=
   | "validate" => run (opValidate j)
   | "config-run" => run (opConfigRun j)
   | "cli" => run (opCli j)
+  | "from-function" => run (opFromFunction j)
   | _ => jerr ("unknown-op: " ++ op)
 
 end OdeVerif.Driver
